@@ -19,6 +19,11 @@ CLAIMED = {
          "Every single-fault shape (reset/close/stall before headers, after headers, after k body bytes, truncated chunked, short Content-Length, garbage, refuse) is enumerated as first-dispatched backend in front of a healthy one on both engines x 3 proxy profiles, and fault combinations over 1..3 backends are rapid-generated; the client's bytes are compared with the per-backend transcripts (status, end-to-end headers, body prefix, no byte of another attempt, no dispatch after delivery began).",
          "Trusts the harness raw backend/client and that self-identifying body tiles attribute bytes correctly; schedules are those the harness produces (one request at a time per stack).",
          "DESIGN.md §3 C02"),
+ "C07": ("exploration",
+         "rapid op-list histories against a reference scheduler/backoff/breaker model with simulated time; pure-function classification table",
+         "Generated histories of scheduler ticks (30 s of simulated time + one real scheduler step), time advances, outcome changes (2xx, 4xx/5xx, refuse, network timeout, context deadline), proxy-detected connection failures through the real RetryHandler and RunHealthCheck rounds drive the real repository and HTTPHealthChecker over a scripted HTTP client for 1..3 endpoints with generated intervals/timeouts; after every step status, consecutive failures, next-check delay (interval x 1,2,4,8,12,12.. capped at 60 s), breaker admission and real probes are compared with a reference model; every history ends with a recovery suffix (answers 200 again => probed for real and healthy within 150 s of ticks) and recovery callbacks are counted per not-healthy->healthy transition. The status classification is additionally checked as a pure function over (code, latency, error class) including the slow (>10 s) branch.",
+         "Simulated time = rewinding stored timestamps (repository API + overlay hook for the breaker); decisions within 2-3 s of a boundary are not asserted; 'for ever' is judged on every prefix of finite histories plus the recovery suffix.",
+         "DESIGN.md §3 C07"),
  "C08": ("exploration",
          "small-scope exhaustive enumeration of operation sequences + rapid sequences against a set-valued reference automaton; simulated time; concurrent admission race",
          "All sequences over {failure, success, ask, advance <timeout, >timeout, >probe window} up to length 6 (quick) / 8 (thorough) are run against the three real breakers (health, olla engine, unifier with several configurations) and compared, ask by ask, with a reference automaton written from the statement that yields the set of allowed answers; every sequence ends with a recovery suffix (works again => closes, count cleared, trips again at threshold); longer sequences are rapid-generated; G concurrent callers race on a timed-out breaker and admissions are counted against the stated limits.",
